@@ -209,4 +209,21 @@ theorem C11_source_skeletons_5 :
     Gen.Skel.SHMHandle_QueryLock = Expected.Skel.SHMHandle_QueryLock :=
   ⟨rfl, rfl, rfl, rfl, rfl, rfl⟩
 
+/-- The halt lock is granted under the write lock, after recovery, at the position read then —
+    facts proved by `decide` about the skeleton of `AcquireHaltLock` regenerated from db.go: a
+    zero lock id is refused first; the write lock is taken before `recover`, recovery comes before
+    the position is read, the lock is installed (`CompareAndSwap`) after that and before the one
+    grant; the guard set is released on the failure path. -/
+theorem C11_halt_lock_is_granted_under_the_write_lock_after_recovery :
+    let ix (sk : List (String × String)) (x : String × String) (d : Nat) := (sk.findIdx? (· == x)).getD d
+    let t := Gen.Skel.DB_AcquireHaltLock
+    ix t ("if", "lockID == 0") 1000 < ix t ("call", "db.AcquireWriteLock") 0 ∧
+    ix t ("call", "db.AcquireWriteLock") 1000 < ix t ("call", "db.recover") 0 ∧
+    ix t ("call", "db.recover") 1000 < ix t ("call", "db.Pos") 0 ∧
+    ix t ("call", "db.Pos") 1000 < ix t ("call", "db.haltLockAndGuard.CompareAndSwap") 0 ∧
+    ix t ("call", "db.haltLockAndGuard.CompareAndSwap") 1000 < ix t ("return", "return &other, nil") 0 ∧
+    (t.filter (· == ("return", "return &other, nil"))).length = 1 ∧
+    ix t ("if", "retErr != nil") 1000 < ix t ("call", "guardSet.Unlock") 0 := by
+  decide
+
 end LiteFSVerif.C11
